@@ -80,6 +80,7 @@ type Contract struct {
 	Linearizable bool      // verified under interference: see linear.go
 	Shared      []AssignTarget // the shared abstract state other threads may change between primitive calls
 	ObjInvs     []*Clause  // object invariants: assumed at entry, proved at every return
+	GhostLocals []GhostVar // function-local ghost variables (not part of any frame): written by ghost hooks, read by clauses
 	IterParam   string     // iterates <param> over <dom>, <val>: the callee calls that function argument once per entry
 	IterDom     ast.Expr
 	IterVal     ast.Expr
@@ -760,6 +761,19 @@ func (s *Specs) loadSpecFile(w *World, path string, pkg *packages.Package, trust
 				gf := &GhostField{Owner: owner, Name: m[2], Type: te, Pkg: pkg}
 				s.GhostFields[owner+"."+m[2]] = gf
 				s.GhostByName[m[2]] = append(s.GhostByName[m[2]], gf)
+				continue
+			}
+			if len(f) >= 1 && f[0] == "local" {
+				// ghost local name Type   (inside a contract)
+				m := regexp.MustCompile(`^local\s+(\w+)\s+(.+)$`).FindStringSubmatch(rest)
+				if m == nil || cur == nil {
+					return fail(l, "ghost local name Type (inside a contract)")
+				}
+				te, err := parseExprAt(m[2], path, l.line)
+				if err != nil {
+					return err
+				}
+				cur.GhostLocals = append(cur.GhostLocals, GhostVar{Name: m[1], Type: te, Pkg: pkg})
 				continue
 			}
 			if len(f) >= 1 && f[0] == "var" {
